@@ -54,7 +54,7 @@ WORKERS = {"quick": 8, "thorough": 16}
 BUDGET = {"quick": 60, "thorough": 900}
 ENV = {"OMP_NUM_THREADS": "2", "OMP_WAIT_POLICY": "passive"}  # 16 spinning threads on 40 atoms cost 0.5 s per call
 FAMILIES = ["contacts", "shape", "thermo", "rdf", "drid", "order"]
-NCASES = {"quick": 300, "thorough": 9000}  # per family
+NCASES = {"quick": 900, "thorough": 9000}  # per family
 FLOORS = {"quick": {"contacts.column": 700, "contacts.column.soft_min": 250, "contacts.column.periodic": 350, "contacts.pairs": 200,
                     "contacts.squareform": 5000, "com": 1000, "cog": 500, "rg": 180, "rg.masses": 60, "gyration": 1500, "inertia": 1500,
                     "pm": 500, "pm.trace": 180, "pm.det": 180, "asphericity": 180, "acylindricity": 180, "rsa": 100,
